@@ -50,6 +50,8 @@ def stats_coverage(st, rule: str, extra: dict | None = None) -> dict:
         "caps_hit": st.caps,
         "unmergeable_types": sorted(st.unmergeable),
         "determinism_recheck": st.recheck,
+        "violating_executions": getattr(st, "violating_executions", 0),
+        "states_are": "distinct canonical fingerprints of the visited choice points; choice points of stateless searches (no fingerprint: thread and trio worlds, C20) count individually",
     }
     if extra:
         cov.update(extra)
